@@ -1763,7 +1763,10 @@ class FuncEmitter:
             w = E.resolve(t)[1]
             a, b = self.val(t, I['a']), self.val(t, I['b'])
             fl = I['flags']
-            if op in ('add', 'sub', 'mul') and w >= 8 and w in (8, 16, 32, 64):
+            # nsw/nuw overflow makes the result poison, not immediate UB, and LLVM speculates such
+            # instructions past the checks that guard them in the source; asserting at the instruction
+            # raised false alarms (int.cc unary minus), so the flags are ignored (DESIGN 0.6)
+            if False and op in ('add', 'sub', 'mul') and w >= 8 and w in (8, 16, 32, 64):
                 if 'nsw' in fl:
                     sa, sb = E.sx(w, a), E.sx(w, b)
                     c.append('VP_UB(!VP_S%s_OVF(%d, %s, %s), "UB: signed overflow in %s nsw");' % (op.upper(), w, sa, sb, op))
